@@ -15,6 +15,12 @@ only their count is used — and are integers or `nan` for the comparison forms)
     cmp <ty> <eq|ne|lt|le|gt|ge|partial_cmp> <A> <B>
     assign_vs_plain <ty> <op> <A> <B>  state after `a op= b` against the value of `a op b`
     bit_assign_vs_plain <ty> <op> <A> <B>
+    arr_self / assign_self / bit_self / bit_assign_self <ty> <op> <A>
+                                       aliasing: both operands are the same array (`a op a.clone()`, `a op= a.clone()`);
+                                       the terms name the receiver's elements on both sides (`o.a3.a3`)
+    cmp_self <ty> <rel> <A>            the SAME object on both sides (`a == a`, `a.partial_cmp(&a)`)
+
+Comparison values: a decimal integer, `nan`, or `nz` (negative zero: equal to `0`, like IEEE -0.0 == 0.0).
 
 Answers: `ok shape:term,term,…` with terms in prefix notation (`o.x.y` operator, `g.x.y` compound
 assignment, `u.x` unary, `aI`/`bI` operand elements, `s` the scalar), `ok true|false`, `ok lt|eq|gt|none`,
@@ -50,7 +56,7 @@ def symB? (s : String) : Option (Arr Sym) := do
   some ⟨(List.range n).map Sym.b, shape⟩
 
 def parseFlt? (s : String) : Option Flt :=
-  if s == "nan" then some none else (parseInt? s).map some
+  if s == "nan" then some none else if s == "nz" then some (some 0) else (parseInt? s).map some
 
 def fltArr? (s : String) : Option (Arr Flt) :=
   match s.splitOn ":" with
@@ -69,6 +75,18 @@ def showOrd : Option Ordering → String
 def sameOrDiffer (x y : Res (Arr Sym)) : String :=
   if x = y then (match x with | .ok _ => "ok same" | .err e => "err " ++ e.name | .panic => "panic")
   else "ok differ"
+
+def handleCmp (_ty rel a b : String) : Option String := do
+  let a ← fltArr? a; let b ← fltArr? b
+  match rel with
+  | "eq" => some (showRes showBool (opEq Flt.eq a b))
+  | "ne" => some (showRes showBool (opNe Flt.eq a b))
+  | "lt" => some (showRes showBool (opLt Flt.pcmp a b))
+  | "le" => some (showRes showBool (opLe Flt.pcmp a b))
+  | "gt" => some (showRes showBool (opGt Flt.pcmp a b))
+  | "ge" => some (showRes showBool (opGe Flt.pcmp a b))
+  | "partial_cmp" => some (showRes showOrd (opPartialCmp Flt.pcmp a b))
+  | _ => none
 
 def handle (op : String) (args : List String) : Option String :=
   match op, args with
@@ -109,17 +127,20 @@ def handle (op : String) (args : List String) : Option String :=
   | "bit_assign_vs_plain", [_, _, a, b] => do
     let a ← symA? a; let b ← symB? b
     some (sameOrDiffer (bitAssign Sym.op a b) (bitop Sym.op a b))
-  | "cmp", [_, rel, a, b] => do
-    let a ← fltArr? a; let b ← fltArr? b
-    match rel with
-    | "eq" => some (showRes showBool (opEq Flt.eq a b))
-    | "ne" => some (showRes showBool (opNe Flt.eq a b))
-    | "lt" => some (showRes showBool (opLt Flt.pcmp a b))
-    | "le" => some (showRes showBool (opLe Flt.pcmp a b))
-    | "gt" => some (showRes showBool (opGt Flt.pcmp a b))
-    | "ge" => some (showRes showBool (opGe Flt.pcmp a b))
-    | "partial_cmp" => some (showRes showOrd (opPartialCmp Flt.pcmp a b))
-    | _ => none
+  | "arr_self", [_, _, a] => do
+    let a ← symA? a
+    some (showRes showSymArr (binop Sym.op a a))
+  | "assign_self", [_, _, a] => do
+    let a ← symA? a
+    some (showRes showSymArr (assignop Sym.asg a a))
+  | "bit_self", [_, _, a] => do
+    let a ← symA? a
+    some (showRes showSymArr (bitop Sym.op a a))
+  | "bit_assign_self", [_, _, a] => do
+    let a ← symA? a
+    some (showRes showSymArr (bitAssign Sym.op a a))
+  | "cmp_self", [ty, rel, a] => handleCmp ty rel a a
+  | "cmp", [ty, rel, a, b] => handleCmp ty rel a b
   | _, _ => none
 
 end Driver.C20
